@@ -578,6 +578,7 @@ fn main() {
             "simulated_time_covered": format!("{} s of virtual time advanced by ticks and Advance events inside seeded runs ({} years); sweep spans 0001-01-01..9999-12-31", sim_seconds, sim_seconds / 31_556_952),
             "clock_dependent_ops": total.clock_dependent_ops,
             "independence_checked_ops": total.independence_checked,
+            "value_unmodelled_but_checked_clock_free_ops": total.clock_free_only,
             "seam_fidelity_crosschecked_ops": total.crosschecked,
             "seam_fidelity_crosscheck_enabled": crosscheck,
             "relaxed_checks": total.relaxed,
@@ -588,6 +589,7 @@ fn main() {
             "ops_by_type": total.by_type,
             "fault_kinds": fault_kinds,
             "probes": probes,
+            "environment_swarm": simcore::envswarm::evidence(seed, workers as u64),
             "interleavings": match &miri_res {
                 Some(m) => json!({"engine": "Miri seeded scheduler over real std::thread; threads with their own clocks share Formatter objects", "scheduler_seeds_run": m.seeds_run, "preemption_rates": rates, "wall_s": m.wall_s, "skipped": m.skipped}),
                 None => json!({"skipped": "--no-miri or earlier violation"}),
